@@ -1484,7 +1484,7 @@ def run(ctx):
                 J.history([sp], h, "cross-talk")
         phase["saturation+cross-talk"] = round(time.time() - t0, 1)
         # 3. random histories
-        budget = 150 if not (ctx.thorough or ctx.escalate) else 800
+        budget = 150 if not (ctx.thorough or ctx.escalate) else 720
         n_hist = ctx.n(150, 2500)
         for k in range(n_hist):
             if time.time() - t0 > budget:
